@@ -238,13 +238,11 @@ func (c *Counter) releaseLock(state counterStateBits) {
 			}
 			debugPrintf("releaseLock %s: reset havePtr (extra=%d)\n", c.name, state.extra())
 
-			// Optimization: only bother loading a new pointer
-			// if we have a value to add to it.
-			c.ptr = counterPtr{nil, nil}
-			if state.extra() != 0 {
-				c.ptr = c.file.lookup(c.name)
-				debugPrintf("releaseLock %s: ptr=%v\n", c.name, c.ptr)
-			}
+			// Always load a new pointer, even if there is no value to add
+			// to it yet: havePtr with a nil pointer would make every later
+			// Add keep its value in memory until the next remap.
+			c.ptr = c.file.lookup(c.name)
+			debugPrintf("releaseLock %s: ptr=%v\n", c.name, c.ptr)
 		}
 
 		if extra := state.extra(); extra != 0 && c.ptr.count != nil {
